@@ -52,6 +52,8 @@ def check_partition(ctx, rid, unit, qn, f, data="X", site_prefix=""):
     if len(loops) != 1:
         if check_range_partition(ctx, rid, unit, qn, f, data, site):
             return None
+        if check_array_split_partition(ctx, rid, unit, qn, f, data, site):
+            return None
         ctx.undecided_site(rid, site, f"{len(loops)} candidate batching loops")
         return None
     L = loops[0]
@@ -168,6 +170,32 @@ def check_range_partition(ctx, rid, unit, qn, f, data, site):
         if any(nbs == x or _same(nbs, x) for x in floor_forms) or "//" in nbs:
             ctx.violation(rid, unit.relpath, qn, f"for {b} in range({nbs})", f"the batches are the blocks [{norm_src(sl.lower)}:{norm_src(sl.upper)}] for {b} < {nbs}: "
                           f"with floor division the last partial block (len % {wtxt} samples) is never produced, so the batches do not cover the data", line=lp.lineno, site=site)
+            return True
+    return False
+
+
+def check_array_split_partition(ctx, rid, unit, qn, f, data, site):
+    """third idiom: for idx in np.array_split(perm, nb). array_split always partitions its argument into nb nearly equal parts, so the batches are
+    disjoint and cover the data; they hold at most batch_size rows iff nb >= len/batch_size, i.e. nb is the CEILING of len/batch_size."""
+    from ..match import resolve_expr
+    cfg = CFG(f)
+    for lp in [n for n in cfg.nodes if isinstance(n, ast.For)]:
+        it = lp.iter
+        if not (isinstance(it, ast.Call) and (call_name(it) or "").split(".")[-1] == "array_split" and len(it.args) >= 2):
+            continue
+        nb = resolve_expr(cfg, lp, it.args[1])
+        nbs = str(norm_src(nb))
+        # strip a guard max(1, .)
+        inner = nb
+        if isinstance(inner, ast.Call) and call_name(inner) == "max" and len(inner.args) == 2:
+            inner = next((a for a in inner.args if not (isinstance(a, ast.Constant) and a.value == 1)), inner)
+        ins = str(norm_src(inner))
+        if any(k in ins for k in ("ceil(", "-(-")) or ("- 1) //" in ins):
+            ctx.ok(rid, site, f"np.array_split into {nbs} parts (a ceiling: parts of at most batch_size rows)")
+            return True
+        if "round(" in ins or "//" in ins or ins.startswith("int("):
+            ctx.violation(rid, unit.relpath, qn, norm_src(it)[:160], f"the data are cut into {nbs} nearly equal parts: with a number of parts that is rounded (not the ceiling of "
+                          "len / batch_size) some batches hold more than batch_size rows and an epoch makes fewer than ceil(n / batch_size) steps", line=lp.lineno, site=site)
             return True
     return False
 
